@@ -1,4 +1,5 @@
 import DaskModel.Lemmas.LegacyOpt
+import DaskModel.Props.C08
 import DaskModel.Lemmas.Subs
 import DaskModel.Lemmas.SubsRename
 import DaskModel.Lemmas.SpecSubst
@@ -12,10 +13,10 @@ Model: `Dask.TaskTerm` (Model/TaskTerm.lean, Model/LegacyOpt.lean): `get_depende
 `cull` of dask/optimization.py over legacy graphs, the statement-level legacy semantics `evalKeyL` (the semantics
 `get_dependencies`/`subs`/`cull` are written against) and the real evaluation `coreGet` (conversion + execution, C08).
 
-`cull`: proved at full strength w.r.t. the legacy semantics, for every graph and key list. W.r.t. the *real*
-evaluation (`dask.core.get`) the statement is false of the code as it is — `cull_preserves_get_refuted` (a reference
-hidden in a non-task tuple is culled; replays on /repo, known finding); for graphs whose values are `clean` the two
-semantics coincide (C08 `convertGraph_preserves_eval_partial`).
+`cull`: proved at full strength w.r.t. the legacy semantics, for every graph and key list, and — since the two `fix:`
+commits of the review round made the conversion agree with that semantics (C08 `convertGraph_preserves_eval`) — also
+w.r.t. the *real* evaluation `dask.core.get`: `cull_preserves_get`. The former refutation witness
+`cull({'a': 1, 'b': (f, (1, 'a'))}, 'b')` is kept as an example.
 `fuse` and the other passes: every real output is validated per run (values, requested keys, dependency map);
 see LEVEL_TEXT of harness/props/c09.py for what is proved vs validated.
 -/
@@ -130,14 +131,128 @@ theorem cull_preserves_eval {g : LGraph} {keys : List Obj} {out : LGraph} {deps 
     intro d hdV
     exact ih d (by rw [lookup_restrict g V d hall]; simp [hdV, hall d hdV])
 
-/-- w.r.t. the real evaluation the statement fails: `cull({'a': 1, 'b': (f, (1, 'a'))}, 'b')` keeps only `b`, whose
-    value changes from `f((1, 1))` to `f((1, 'a'))`. -/
-theorem cull_preserves_get_refuted :
-    ∃ (g out : LGraph) (deps : List (Obj × List Obj)) (k : Obj),
-      cull g [k] = some (out, deps) ∧ coreGet out k ≠ coreGet g k := by
-  refine ⟨[(.str "a", .int 1), (.str "b", .tuple [.fn 0, .tuple [.int 1, .str "a"]])],
-    [(.str "b", .tuple [.fn 0, .tuple [.int 1, .str "a"]])],
-    [(.str "b", [])], .str "b", by decide, by decide⟩
+/-- `convert` answers an alias only for a key that is not a task: the object itself -/
+theorem convert_alias (keys : List Obj) (v t : Obj) (h : convert keys v = .alias t) :
+    t = v ∧ inKeys keys v = true ∧ v.isTask = false := by
+  cases v with
+  | tuple xs =>
+    cases xs with
+    | nil =>
+      simp only [convert] at h
+      split at h
+      · rename_i hk; cases h; exact ⟨rfl, hk, rfl⟩
+      · cases h
+    | cons x xs =>
+      simp only [convert] at h
+      split at h
+      · cases h
+      · rename_i hc
+        split at h
+        · rename_i hk; cases h
+          exact ⟨rfl, hk, by simpa [Obj.isTask, isTaskList] using hc⟩
+        · cases h
+  | list xs => simp only [convert] at h; split at h <;> cases h
+  | dict kvs => simp only [convert] at h; split at h <;> cases h
+  | int n =>
+    simp only [convert] at h
+    split at h
+    · rename_i hk; cases h; exact ⟨rfl, hk, rfl⟩
+    · cases h
+  | str s =>
+    simp only [convert] at h
+    split at h
+    · rename_i hk; cases h; exact ⟨rfl, hk, rfl⟩
+    · cases h
+  | none => simp [convert] at h
+  | fn f => simp [convert] at h
+  | quoted q => simp [convert] at h
+  | app f a kw => simp [convert] at h
+
+theorem convert_of_key (keys : List Obj) (v : Obj) (hk : inKeys keys v = true) (hnt : v.isTask = false) :
+    convert keys v = .alias v := by
+  cases v with
+  | tuple xs =>
+    cases xs with
+    | nil => simp [convert, hk]
+    | cons x xs =>
+      have hc : x.callable = false := by simpa [Obj.isTask, isTaskList] using hnt
+      simp [convert, hc, hk]
+  | int n => simp [convert, hk]
+  | str s => simp [convert, hk]
+  | list xs => simp [inKeys, Obj.keyTyped] at hk
+  | dict kvs => simp [inKeys, Obj.keyTyped] at hk
+  | none => simp [inKeys, Obj.keyTyped] at hk
+  | fn f => simp [inKeys, Obj.keyTyped] at hk
+  | quoted q => simp [inKeys, Obj.keyTyped] at hk
+  | app f a kw => simp [inKeys, Obj.keyTyped] at hk
+
+/-- a legacy value that is (as a term) its own key is skipped by `convert_legacy_graph`; that happens for the same entries
+    whatever superset of keys is used -/
+theorem convertTop_none_iff (keys : List Obj) (k v : Obj) :
+    convertTop keys k v = none ↔ (v = k ∧ inKeys keys v = true ∧ v.isTask = false) := by
+  constructor
+  · intro h
+    unfold convertTop at h
+    split at h
+    · rename_i t ht
+      obtain ⟨h1, h2, h3⟩ := convert_alias keys v t ht
+      split at h
+      · rename_i he; exact ⟨by rw [← h1]; exact eq_of_beq he, h2, h3⟩
+      · cases h
+    · cases h
+    · cases h
+    · cases h
+  · rintro ⟨rfl, h2, h3⟩
+    unfold convertTop
+    rw [convert_of_key keys v h2 h3]
+    simp
+
+/-- **Same values under `dask.core.get`**: the conversion of the culled graph (with *its* key set) evaluates every
+    kept key — in particular every requested key — exactly as the conversion of the original graph does, at every
+    depth and for every cache. (Values well-formed, no entry that is its own alias.) -/
+theorem cull_preserves_get {g : LGraph} {keys : List Obj} {out : LGraph} {deps : List (Obj × List Obj)}
+    (h : cull g keys = some (out, deps)) (hKt : ∀ k ∈ g.map Prod.fst, k.keyTyped = true)
+    (hwf : ∀ kv ∈ g, kv.2.wf = true) (hns : ∀ kv ∈ g, convertTop (g.map Prod.fst) kv.1 kv.2 ≠ none)
+    (cache : Obj → Option Obj) :
+    ∀ (fuel : Nat) (k : Obj), (out.lookup k).isSome →
+      evalKeyN (convertGraph (out.map Prod.fst) out) cache fuel k =
+        evalKeyN (convertGraph (g.map Prod.fst) g) cache fuel k := by
+  have hsub := cull_subgraph h
+  have hmem : ∀ kv ∈ out, kv ∈ g := fun kv hkv => by
+    -- every entry of the culled graph is an entry of the original
+    obtain ⟨V, hV, rfl, _⟩ := cull_unfold h
+    unfold restrict at hkv
+    simp only [List.mem_filterMap] at hkv
+    obtain ⟨x, _, hx⟩ := hkv
+    cases hl : g.lookup x with
+    | none => rw [hl] at hx; cases hx
+    | some t =>
+      rw [hl] at hx
+      simp only [Option.map_some, Option.some.injEq] at hx
+      subst hx
+      exact Dask.C08.lookup_mem g x t hl
+  have hkeys : ∀ k ∈ out.map Prod.fst, k ∈ g.map Prod.fst := fun k hk => by
+    obtain ⟨kv, hkv, rfl⟩ := List.mem_map.mp hk
+    exact List.mem_map.mpr ⟨kv, hmem kv hkv, rfl⟩
+  have hns' : ∀ kv ∈ out, convertTop (out.map Prod.fst) kv.1 kv.2 ≠ none := by
+    intro kv hkv hc
+    obtain ⟨h1, h2, h3⟩ := (convertTop_none_iff _ _ _).mp hc
+    apply hns kv (hmem kv hkv)
+    rw [convertTop_none_iff]
+    refine ⟨h1, ?_, h3⟩
+    unfold inKeys at h2 ⊢
+    simp only [Bool.and_eq_true, List.contains_eq_mem, decide_eq_true_eq] at h2 ⊢
+    exact ⟨h2.1, hkeys _ h2.2⟩
+  intro fuel k hk
+  rw [Dask.C08.convertGraph_preserves_eval out _ cache (fun kv hkv => hwf kv (hmem kv hkv)) hns' fuel k,
+    Dask.C08.convertGraph_preserves_eval g _ cache hwf hns fuel k]
+  exact cull_preserves_eval h hKt cache fuel k hk
+
+/-- the former refutation witness `cull({'a': 1, 'b': (f, (1, 'a'))}, 'b')`: `b` keeps its value `f((1, 'a'))` -/
+example : cull [(.str "a", .int 1), (.str "b", .tuple [.fn 0, .tuple [.int 1, .str "a"]])] [.str "b"] =
+      some ([(.str "b", .tuple [.fn 0, .tuple [.int 1, .str "a"]])], [(.str "b", [])]) ∧
+    coreGet [(.str "b", .tuple [.fn 0, .tuple [.int 1, .str "a"]])] (.str "b") =
+      coreGet [(.str "a", .int 1), (.str "b", .tuple [.fn 0, .tuple [.int 1, .str "a"]])] (.str "b") := by decide
 
 
 /-! ### substitution-based passes (`inline`, `inline_functions`, `fuse_linear`, `fuse`)
@@ -219,8 +334,8 @@ example : fuseOKR [(.str "a", .int 1), (.str "b", .tuple [.fn 0, .str "a"]), (.s
 example : subs (.str "y") (.tuple [.fn 1, .str "x"]) (.tuple [.fn 0, .str "x", .str "y"]) =
     .tuple [.fn 0, .str "x", .tuple [.fn 1, .str "x"]] := by decide
 
-/-- `subs` looks inside dict values (since the `fix:` "legacy dict values are converted") but *not* inside non-task
-    tuples (the source of the known findings) -/
+/-- `subs` looks inside dict values (since ca6daad) but *not* inside non-task tuples: they are literals, for the
+    conversion too since the second fix of the review round -/
 example : subs (.str "a") (.int 1) (.tuple [.fn 0, .dict [(.str "x", .str "a")], .tuple [.int 1, .str "a"]]) =
     .tuple [.fn 0, .dict [(.str "x", .int 1)], .tuple [.int 1, .str "a"]] := by decide
 
